@@ -5,6 +5,7 @@ package rosmar
 
 import (
 	"context"
+	"database/sql"
 	"testing"
 	"time"
 
@@ -381,4 +382,37 @@ func TestFindingF20DeleteSubDocPathsEvent(t *testing.T) {
 	require.NotNil(t, e)
 	require.Equal(t, uint32(2000000000), e.Expiry, "the event carries the document's expiry")
 	require.NotZero(t, e.DataType&sgbucket.FeedDataTypeJSON, "the event carries the document's datatype")
+}
+
+// F21 [C10,C13] A failed OpenBucket of an EXISTING on-disk bucket deleted the bucket's files: the clean-up that removes
+// a half-created bucket ran for every error after sql.Open, including a transient "database is locked".
+func TestFindingF21FailedReopenKeepsBucket(t *testing.T) {
+	ctx := context.Background()
+	dir := testBucketPath(t)
+	url := uriFromPath(dir)
+	b, err := OpenBucket(url, "f21", CreateNew)
+	require.NoError(t, err)
+	require.NoError(t, b.DefaultDataStore().(*Collection).SetRaw("k", 0, nil, []byte(`{"v":1}`)))
+	b.Close(ctx)
+
+	// another connection (think: another process) holds the write lock, so that the reopening call's first write fails
+	// with "database is locked" once the busy timeout (10 s) has passed
+	raw, err := sql.Open("sqlite3_for_rosmar", "file:"+dir+"/"+kDBFilename+"?_txlock=immediate&_busy_timeout=0")
+	require.NoError(t, err)
+	tx, err := raw.Begin()
+	require.NoError(t, err)
+	_, err = tx.Exec(`UPDATE bucket SET name=name`)
+	require.NoError(t, err)
+
+	_, err = OpenBucket(url, "f21", ReOpenExisting)
+	require.Error(t, err, "the open is expected to fail while the database is locked")
+	require.NoError(t, tx.Rollback())
+	require.NoError(t, raw.Close())
+
+	b2, err := OpenBucket(url, "f21", ReOpenExisting)
+	require.NoError(t, err, "a failed open must not delete an existing bucket")
+	defer func() { _ = b2.CloseAndDelete(ctx) }()
+	val, _, err := b2.DefaultDataStore().(*Collection).GetRaw("k")
+	require.NoError(t, err)
+	require.Equal(t, `{"v":1}`, string(val))
 }
